@@ -38,7 +38,8 @@ private def obs (s : St) : SExp :=
          .nat (s.toUser.filter (· != .indPdata)).length, .nat s.recvPdu.length, .nat s.closes,
          match s.log with
          | d :: _ => .list [.nat d.evt, .nat d.state, SExp.ofBool d.action.isSome, .nat d.next]
-         | [] => .sym "none"]
+         | [] => .sym "none",
+         SExp.ofBool (s.artim == .running || s.artim == .runningExpired)]
 
 /-- `(dul.run <requestor T/F> (<step> ...))` → the observation after every step -/
 def dulOps (op : String) (args : List SExp) : Option SExp :=
